@@ -444,6 +444,81 @@ def outline_loop(b, ordn, stubcall):
     return new, cond, body2
 
 
+
+LOCK_DECL = re.compile(r'\bstd::(unique_lock|lock_guard|scoped_lock)(?:<[^<>;]*>)?\s+(\w+)\s*[\{\(]\s*([^,{}();]+?)\s*'
+                       r'(?:,\s*std::(try_to_lock|defer_lock|adopt_lock))?\s*[\}\)]\s*;')
+
+
+def _enclosing_block_end(b, pos):
+    """index of the '}' closing the innermost block that contains position pos"""
+    d = 0
+    i = pos
+    n = len(b)
+    while i < n:
+        ch = b[i]
+        if ch == '"' or (ch == "'" and not (i > 0 and b[i - 1].isalnum())):
+            j = i + 1
+            while j < n and b[j] != ch:
+                j += 2 if b[j] == '\\' else 1
+            i = j + 1
+            continue
+        if ch == '{':
+            d += 1
+        elif ch == '}':
+            if d == 0:
+                return i
+            d -= 1
+        i += 1
+    raise ExtractionError('lock declaration outside any block')
+
+
+def rewrite_locks(b):
+    """std::unique_lock l{m}; / std::lock_guard l{m}; [, std::try_to_lock]  ->  VF_ACQUIRE(&(m)); / VF_TRY_ACQUIRE(&(m));
+    l.unlock() / l.lock() / cv.wait(l) / !l  ->  VF_RELEASE / VF_ACQUIRE / VF_CV_WAIT / !VF_HELD ;
+    RAII unlock made explicit: VF_SCOPE_EXIT(&(m)) before every return inside the declaring block and at its end
+    (DESIGN.md section 3.1).  cv.notify_one()/notify_all() -> VF_NOTIFY_ONE/ALL(&(cv))."""
+    while True:
+        m = LOCK_DECL.search(b)
+        if not m:
+            break
+        name, mx, opt = m.group(2), m.group(3).strip(), m.group(4)
+        M = '&(' + mx + ')'
+        if opt == 'try_to_lock':
+            decl = 'VF_TRY_ACQUIRE(%s);' % M
+        elif opt == 'defer_lock':
+            decl = ';'
+        elif opt == 'adopt_lock':
+            decl = 'VF_ADOPT(%s);' % M
+        else:
+            decl = 'VF_ACQUIRE(%s);' % M
+        end = _enclosing_block_end(b, m.end())
+        head, blk, tail = b[:m.start()], b[m.end():end], b[end:]
+        blk = re.sub(r'(?<![\w.>])' + name + r'\s*\.\s*unlock\s*\(\s*\)', 'VF_RELEASE(%s)' % M, blk)
+        blk = re.sub(r'(?<![\w.>])' + name + r'\s*\.\s*lock\s*\(\s*\)', 'VF_ACQUIRE(%s)' % M, blk)
+        blk = re.sub(r'(?<![\w.>])' + name + r'\s*\.\s*owns_lock\s*\(\s*\)', 'VF_HELD(%s)' % M, blk)
+        blk = re.sub(r'([\w.>-]+)\s*\.\s*wait\s*\(\s*' + name + r'\s*\)', r'VF_CV_WAIT(&(\1), %s)' % M, blk)
+        blk = re.sub(r'([\w.>-]+)\s*\.\s*wait_until\s*\(\s*' + name + r'\s*,', r'VF_CV_WAIT_UNTIL(&(\1), %s,' % M, blk)
+        blk = re.sub(r'([\w.>-]+)\s*\.\s*wait_for\s*\(\s*' + name + r'\s*,', r'VF_CV_WAIT_FOR(&(\1), %s,' % M, blk)
+        blk = re.sub(r'(?<![\w.>])' + name + r'\b(?!\s*[.(\w])', 'VF_HELD(%s)' % M, blk)
+        # explicit RAII release at every return of the declaring block
+        out = []
+        i = 0
+        for r in re.finditer(r'\breturn\b([^;]*);', blk):
+            out.append(blk[i:r.start()])
+            val = r.group(1).strip()
+            if val:
+                out.append('{ __typeof__(%s) vf_rv = (%s); VF_SCOPE_EXIT(%s); return vf_rv; }' % (val, val, M))
+            else:
+                out.append('{ VF_SCOPE_EXIT(%s); return; }' % M)
+            i = r.end()
+        out.append(blk[i:])
+        blk = ''.join(out)
+        b = head + decl + blk + ' VF_SCOPE_EXIT(%s); ' % M + tail
+    b = re.sub(r'([\w.>-]+)\s*\.\s*notify_one\s*\(\s*\)', r'VF_NOTIFY_ONE(&(\1))', b)
+    b = re.sub(r'([\w.>-]+)\s*\.\s*notify_all\s*\(\s*\)', r'VF_NOTIFY_ALL(&(\1))', b)
+    return b
+
+
 RESIDUAL = [
     (r'::', 'scope operator'),
     (r'\btemplate\b', 'template'),
@@ -494,6 +569,7 @@ def rewrite(body, ctx):
     b = re.sub(r'^[ \t]*#\s*pragma[^\n]*$', '', b, flags=re.M)
     # preprocessor conditionals that (after dropping pragmas/comments) guard nothing
     b = re.sub(r'^[ \t]*#\s*if[^\n]*\n(?:\s*#\s*el(?:if|se)[^\n]*\n|\s*\n)*\s*#\s*endif[^\n]*$', '', b, flags=re.M)
+    b = rewrite_locks(b)
     for name, field in ctx.get('ptrmem', {}).items():
         b = re.sub(r'->\*\s*' + name + r'\b', '->' + field, b)
         b = re.sub(r'\.\*\s*' + name + r'\b', '.' + field, b)
